@@ -203,6 +203,9 @@ class Sched:
         self.time_advances = 0
         self.log = []                # harness event log (owned by the harness)
         self.unregistered_ops = 0
+        self.max_virtual = 7200.0    # virtual-time horizon (seconds)
+        self.line_delays = []        # [{'thread', 'qual', 'nth', 'd'}]
+        self.delays_fired = []
 
     # ---- thread management -------------------------------------------
     def spawn(self, fn, name=None, daemon=False):
@@ -292,6 +295,8 @@ class Sched:
         if not dl:
             return False
         new = min(dl)
+        if new > self.max_virtual:
+            return False            # virtual-time horizon: periodic timers alone keep the execution 'alive'
         if new > self.now:
             self.now = new
         self.steps = 0
@@ -317,7 +322,8 @@ class Sched:
                 break
             if not self._advance_time():
                 live = [t for t in self.ts if t.st == BLK and not t.daemon]
-                self._finish('deadlock' if live else None)
+                horizon = any(t.deadline is not None for t in live)
+                self._finish(('timebound' if horizon else 'deadlock') if live else None)
                 return None
         nxt = self.strategy.pick(self, None, en, False)
         self._wake(nxt)
@@ -560,6 +566,197 @@ class SimRLock:
 
     def _is_owned(self):
         return self._owner is not None and self._owner == self._ident()
+
+
+class SimEvent:
+    """threading.Event look-alike."""
+
+    def __init__(self):
+        self._flag = False
+
+    def is_set(self):
+        return self._flag
+
+    isSet = is_set
+
+    def set(self):
+        self._flag = True
+        s = CUR[0] if me() is not None else None
+        if s is not None:
+            s.yield_point('event.set')
+
+    def clear(self):
+        self._flag = False
+
+    def wait(self, timeout=None):
+        s = CUR[0] if me() is not None else None
+        if s is None:
+            end = None if timeout is None else _real_monotonic() + timeout
+            while not self._flag and (end is None or _real_monotonic() < end):
+                _real_sleep(0.0005)
+            return self._flag
+        if not self._flag:
+            dl = None if timeout is None else s.now + timeout
+            s.block(lambda: self._flag, dl, 'event.wait')
+        else:
+            s.yield_point('event.wait')
+        return self._flag
+
+
+class SimSemaphore:
+    def __init__(self, value=1):
+        if value < 0:
+            raise ValueError('semaphore initial value must be >= 0')
+        self._value = value
+
+    def acquire(self, blocking=True, timeout=None):
+        if not blocking and timeout is not None:
+            raise ValueError("can't specify timeout for non-blocking acquire")
+        s = CUR[0] if me() is not None else None
+        if s is not None:
+            s.yield_point('sem.acquire')
+        if self._value > 0:
+            self._value -= 1
+            return True
+        if not blocking:
+            return False
+        if s is None:
+            raise HarnessFault('sim semaphore contended from an unregistered thread')
+        dl = None if timeout is None else s.now + timeout
+        while self._value <= 0:
+            if not s.block(lambda: self._value > 0, dl, 'sem'):
+                return False
+        self._value -= 1
+        return True
+
+    def release(self, n=1):
+        self._value += n
+        s = CUR[0] if me() is not None else None
+        if s is not None:
+            s.yield_point('sem.release')
+
+    def __enter__(self):
+        return self.acquire()
+
+    def __exit__(self, *a):
+        self.release()
+
+
+class SimBoundedSemaphore(SimSemaphore):
+    def __init__(self, value=1):
+        super().__init__(value)
+        self._initial = value
+
+    def release(self, n=1):
+        if self._value + n > self._initial:
+            raise ValueError('Semaphore released too many times')
+        super().release(n)
+
+
+class SimCondition:
+    def __init__(self, lock=None):
+        self._lock = lock if lock is not None else SimRLock()
+        self._gen = 0
+        self._pending = 0
+        self.acquire = self._lock.acquire
+        self.release = self._lock.release
+
+    def __enter__(self):
+        return self._lock.__enter__()
+
+    def __exit__(self, *a):
+        return self._lock.__exit__(*a)
+
+    def wait(self, timeout=None):
+        s = CUR[0] if me() is not None else None
+        if s is None:
+            raise HarnessFault('sim condition used from an unregistered thread')
+        ticket = {'woken': False}
+        self._waiters = getattr(self, '_waiters', [])
+        self._waiters.append(ticket)
+        # release fully (RLock may be nested)
+        depth = 0
+        if isinstance(self._lock, SimRLock):
+            depth = self._lock._depth
+            for _ in range(depth):
+                self._lock.release()
+        else:
+            self._lock.release()
+        dl = None if timeout is None else s.now + timeout
+        ok = s.block(lambda: ticket['woken'], dl, 'cond.wait')
+        if not ok and ticket in self._waiters:
+            self._waiters.remove(ticket)
+        if isinstance(self._lock, SimRLock):
+            for _ in range(depth):
+                self._lock.acquire()
+        else:
+            self._lock.acquire()
+        return ok
+
+    def wait_for(self, predicate, timeout=None):
+        s = CUR[0]
+        end = None if timeout is None else s.now + timeout
+        r = predicate()
+        while not r:
+            rem = None if end is None else end - s.now
+            if rem is not None and rem <= 0:
+                break
+            self.wait(rem)
+            r = predicate()
+        return r
+
+    def notify(self, n=1):
+        ws = getattr(self, '_waiters', [])
+        for t in ws[:n]:
+            t['woken'] = True
+        del ws[:n]
+
+    def notify_all(self):
+        self.notify(len(getattr(self, '_waiters', [])))
+
+    notifyAll = notify_all
+
+
+class SimThread:
+    """threading.Thread look-alike whose body runs as a registered sim thread."""
+    _n = 0
+
+    def __init__(self, group=None, target=None, name=None, args=(), kwargs=None, *, daemon=None):
+        SimThread._n += 1
+        self._target = target
+        self._args = args
+        self._kwargs = kwargs or {}
+        self.name = name or f'SimThread-{SimThread._n}'
+        self.daemon = bool(daemon)
+        self._ts = None
+        self._real = None
+
+    def run(self):
+        if self._target is not None:
+            self._target(*self._args, **self._kwargs)
+
+    def start(self):
+        s = CUR[0] if me() is not None else None
+        if s is None:
+            self._real = threading.Thread(target=self.run, name=self.name, daemon=self.daemon)
+            self._real.start()
+            return
+        s.yield_point('thread.start')
+        self._ts = s.spawn(self.run, f'thr{len(s.ts)}', daemon=self.daemon)
+
+    def is_alive(self):
+        if self._real is not None:
+            return self._real.is_alive()
+        return self._ts is not None and self._ts.st != DONE
+
+    def join(self, timeout=None):
+        if self._real is not None:
+            return self._real.join(timeout)
+        s = CUR[0] if me() is not None else None
+        if s is None or self._ts is None:
+            return
+        dl = None if timeout is None else s.now + timeout
+        s.block(lambda: self._ts.st == DONE, dl, 'thread.join')
 
 
 class SimFuture(cf.Future):
@@ -841,7 +1038,8 @@ def _sim_os_close(fd):
 
 def make_proxies():
     return {
-        'threading': _Proxy(threading, Lock=SimLock, RLock=SimRLock),
+        'threading': _Proxy(threading, Lock=SimLock, RLock=SimRLock, Event=SimEvent, Semaphore=SimSemaphore,
+                            BoundedSemaphore=SimBoundedSemaphore, Condition=SimCondition, Thread=SimThread),
         'time': _Proxy(_real_time, sleep=sim_sleep, time=sim_time),
         'queue': _Proxy(_real_queue, Queue=SimQueue),
         'fcntl': _Proxy(_real_fcntl, flock=_sim_flock),
@@ -876,6 +1074,16 @@ def install(mod):
             new = SimLock
         elif val is _real_RLock:
             new = SimRLock
+        elif val is threading.Event:
+            new = SimEvent
+        elif val is threading.Semaphore:
+            new = SimSemaphore
+        elif val is threading.BoundedSemaphore:
+            new = SimBoundedSemaphore
+        elif val is threading.Condition:
+            new = SimCondition
+        elif val is threading.Thread:
+            new = SimThread
         elif val is _real_sleep:
             new = sim_sleep
         elif val is _real_time.time:
@@ -1018,6 +1226,16 @@ def _line_cb(code, line):
     lc = s.line_cov
     lc[key] = lc.get(key, 0) + 1
     if t is s.cur and not s.in_sched:
+        ld = s.line_delays
+        if ld:
+            # injected *timed* delay (a long preemption): the thread sleeps in virtual time right
+            # before executing this line, so timers of other threads can fire meanwhile
+            for d in ld:
+                if d['thread'] == t.name and code.co_qualname.startswith(d['qual']):
+                    d['seen'] = d.get('seen', 0) + 1
+                    if d['seen'] == d['nth']:
+                        s.delays_fired.append((t.name, key, d['d']))
+                        s.sleep(d['d'])
         s.yield_point(key)
 
 
@@ -1093,10 +1311,12 @@ class Result:
 
 
 def execute(main, strategy=None, max_steps=200000, lines=True, watchdog=60.0,
-            gc_every=20, hooks=None, pre=None):
+            gc_every=20, hooks=None, pre=None, max_virtual=None):
     """Run `main(sched)` as the first registered thread of a fresh execution."""
     reset_between_executions()
     s = Sched(strategy, max_steps=max_steps, lines=lines)
+    if max_virtual is not None:
+        s.max_virtual = max_virtual
     if hooks:
         for (tn, k), fn in hooks.items():
             s.at(tn, k, fn)
